@@ -29,7 +29,7 @@ import (
 type tcase struct {
 	Path   string `json:"path"` // "engine" (StorageEngine.Search over shards) | "nodes" (ProcessSearch merge over nodes)
 	Corpus string `json:"corpus"`
-	NObj   int    `json:"objects"`
+	Pick   int    `json:"pick"` // bit mask of the corpus objects in play
 	Shards int    `json:"shards"`
 	Dist   []int  `json:"distribution"` // per object: bit mask of the shards/nodes holding a copy
 	Order  []int  `json:"order"`        // visiting order of the shards / arrival order of the node answers
@@ -138,16 +138,16 @@ func evalCase(rw *refWorld, qi int, q query, count uint16, do requester, path st
 	got, rerr := paginate(do, q, count, len(e.full)+3)
 	class := q.Class
 	if rerr != nil {
-		return &verdict{path + ":" + class + ":" + rerr.kind,
-			fmt.Sprintf("%s; pages so far: [%s]; reference: [%s]", rerr.Error(), renderPages(got, rw.names), renderPages(ref, rw.names))}
+		return &verdict{class + ":" + rerr.kind,
+			fmt.Sprintf("[%s path] %s; pages so far: [%s]; reference: [%s]", path, rerr.Error(), renderPages(got, rw.names), renderPages(ref, rw.names))}
 	}
 	if k := diffKind(ref, got, len(q.Attrs) > 0); k != "" {
 		kk := k
 		if strings.HasPrefix(k, "items:") {
 			kk = "items-differ"
 		}
-		return &verdict{path + ":" + class + ":" + kk,
-			fmt.Sprintf("%s: got [%s], reference [%s]", k, renderPages(got, rw.names), renderPages(ref, rw.names))}
+		return &verdict{class + ":" + kk,
+			fmt.Sprintf("[%s path] %s: got [%s], reference [%s]", path, k, renderPages(got, rw.names), renderPages(ref, rw.names))}
 	}
 	return nil
 }
@@ -234,7 +234,7 @@ func runWorld(r *ev.Run, rw *refWorld, w *ew.World, qs []query, k int, dist []in
 						r.Nontrivial(fmt.Sprintf("%s|%s|%d|%d|%d|%s", path, rw.c.name, k, qi, n, sig.String()))
 					}
 					if v != nil {
-						c := tcase{Path: path, Corpus: rw.c.name, NObj: len(rw.c.objs), Shards: k, Dist: append([]int(nil), dist...), Order: perm, Query: q, Count: n}
+						c := tcase{Path: path, Corpus: rw.c.name, Pick: rw.c.mask, Shards: k, Dist: append([]int(nil), dist...), Order: perm, Query: q, Count: n}
 						cl.add(v, c, caseKey(c, di, oi, qi))
 						outcomes.Store("violation:"+v.fp, true)
 					} else {
@@ -311,7 +311,7 @@ func enumerateSingleNode(r *ev.Run, c corpus, qs []query, cl *collector, outcome
 				r.Nontrivial(fmt.Sprintf("single-node|%s|%d|%d", c.name, qi, n))
 			}
 			if v != nil {
-				tc := tcase{Path: "nodes", Corpus: c.name, NObj: len(c.objs), Shards: 1, Dist: dist, Order: []int{0}, Query: q, Count: n}
+				tc := tcase{Path: "nodes", Corpus: c.name, Pick: c.mask, Shards: 1, Dist: dist, Order: []int{0}, Query: q, Count: n}
 				cl.add(v, tc, caseKey(tc, 0, 0, qi))
 				outcomes.Store("violation:"+v.fp, true)
 			}
@@ -319,7 +319,7 @@ func enumerateSingleNode(r *ev.Run, c corpus, qs []query, cl *collector, outcome
 	}
 }
 
-func corpusByName(name string, n int) corpus {
+func corpusByName(name string, mask int) corpus {
 	var c corpus
 	switch name {
 	case "plain":
@@ -329,15 +329,15 @@ func corpusByName(name string, n int) corpus {
 	default:
 		panic("unknown corpus " + name)
 	}
-	if n > 0 && n < len(c.objs) {
-		c = c.sub(n)
+	if mask != 0 {
+		c = c.pick(mask)
 	}
 	return c
 }
 
 // replay evaluates exactly one case.
 func replay(r *ev.Run, tc tcase) *verdict {
-	c := corpusByName(tc.Corpus, tc.NObj)
+	c := corpusByName(tc.Corpus, tc.Pick)
 	qs := []query{tc.Query}
 	rw := buildRef(r, c, qs)
 	defer rw.w.Close()
@@ -393,9 +393,11 @@ func main() {
 	}
 	var jobs []job
 	if r.Quick() {
-		jobs = []job{{plainCorpus(), 2}, {relCorpus(), 2}}
+		// five objects each: plain without f, rel without r2
+		jobs = []job{{plainCorpus().pick(0b011111), 2}, {relCorpus().pick(0b111101), 2}}
 	} else {
-		jobs = []job{{plainCorpus(), 2}, {relCorpus(), 2}, {plainCorpus().sub(5), 3}, {relCorpus().sub(5), 3}}
+		// all six over 2 shards; four over 3 shards (plain a,b,c,e; rel r1,r3,t1,t2)
+		jobs = []job{{plainCorpus(), 2}, {relCorpus(), 2}, {plainCorpus().pick(0b010111), 3}, {relCorpus().pick(0b011101), 3}}
 	}
 	exhaustive := true
 	var bounds []string
